@@ -138,6 +138,13 @@ type OpaqueV struct {
 	T   types.Type
 }
 
+// MapV is a map whose entries with constant keys are modelled as cells
+// "k:<key>" of Obj.
+type MapV struct {
+	Obj  *Obj
+	Elem types.Type
+}
+
 // FuncV is a function value with optional closure bindings.
 type FuncV struct {
 	Fn       interface{} // *ssa.Function or *ssa.Builtin
